@@ -55,11 +55,29 @@ class World:
         from pkgcore.config.hint import ConfigHint
         from pkgcore.scripts import pclean
         from pkgcore.ebuild.cpv import VersionedCPV
-        from pkgcore.repository.util import SimpleTree
+        from pkgcore.repository import prototype
         from pkgcore.test.scripts.helpers import ArgParseMixin
         from snakeoil.formatters import PlainTextFormatter
 
-        self.CPV, self.SimpleTree, self.Fmt = VersionedCPV, SimpleTree, PlainTextFormatter
+
+        class Tree(prototype.tree):
+            """in-memory, non-virtual repository: the stock prototype.tree (candidate pruning, itermatch) over a dict
+            (repository.util.SimpleTree does the same but counts as a virtual repo, which pclean skips)"""
+
+            def __init__(s, cpv_dict, pkg_klass, repo_id, livefs=False):
+                s.cpv_dict, s.package_class, s.repo_id, s.livefs = cpv_dict, pkg_klass, repo_id, livefs
+                super().__init__(frozen=True)
+
+            def _get_categories(s):
+                return tuple(s.cpv_dict.keys())
+
+            def _get_packages(s, category):
+                return tuple(s.cpv_dict[category].keys())
+
+            def _get_versions(s, cp_key):
+                return tuple(s.cpv_dict[cp_key[0]][cp_key[1]])
+
+        self.CPV, self.Tree, self.Fmt = VersionedCPV, Tree, PlainTextFormatter
         self.root = mktmp("pclean")
         self.distdir = os.path.join(self.root, "distfiles")
         self.xfile = os.path.join(self.root, "exclude.list")
@@ -83,8 +101,8 @@ class World:
         self.section = basics.HardCodedConfigSection({"class": stub_domain, "default": True})
 
     def _tree(self, pkgs, repo_id, livefs=False):
-        """a real in-memory repository (pkgcore.repository.util.SimpleTree, i.e. prototype.tree with its candidate
-        pruning and itermatch) whose packages carry the distfiles / RESTRICT of the scenario"""
+        """a real in-memory repository (prototype.tree with its candidate pruning and itermatch) whose packages carry
+        the distfiles / RESTRICT of the scenario"""
         meta = {f"{d['cat']}/{d['pkg']}-{d['ver']}": d for d in pkgs}
 
         class Pkg(self.CPV):
@@ -109,7 +127,7 @@ class World:
             vers = cpv_dict.setdefault(d["cat"], {}).setdefault(d["pkg"], [])
             if d["ver"] not in vers:
                 vers.append(d["ver"])
-        return self.SimpleTree(cpv_dict, pkg_klass=Pkg, livefs=livefs, repo_id=repo_id)
+        return self.Tree(cpv_dict, Pkg, repo_id, livefs=livefs)
 
     def build(self, case):
         shutil.rmtree(self.root, ignore_errors=True)
@@ -254,7 +272,7 @@ def run(ck):
                "real `pclean dist` argument parser + main function; non-trivial = distinct scenario in which at least one file was removed and at least one "
                "file selected by the targets was kept")
     ck.assumptions = [
-        "repositories are real in-memory trees (pkgcore.repository.util.SimpleTree = prototype.tree: candidate pruning, itermatch, "
+        "repositories are real in-memory trees (a dict-backed subclass of repository.prototype.tree: candidate pruning, itermatch, "
         "multiplexing as in production) whose packages are VersionedCPV objects carrying distfiles / RESTRICT=fetch; the default domain "
         "of the config handed to the real argument parser is a stub exposing distdir / all_installed_repos / source_repos",
         "the target-name heuristics are observed (tool's own listing for the targets alone), not specified",
@@ -320,7 +338,9 @@ def run(ck):
         raise tlc.MachineryError(f"export too small: {len(exported)}")
     for c in exported:
         e = record(c)
-    k = next(e for e in events if e["removed"] and cases[e["tid"]][0]["targets"] and e["excludes"] and e["xfile"])
+    # a representative sample for the evidence file only; never a reason to fail
+    k = next((e for e in events if e["removed"] and cases[e["tid"]][0]["targets"] and e["excludes"] and e["xfile"]),
+             next((e for e in events if e["removed"]), events[0]))
     ck.sample(dict(direction="spec->code", argv=[a if a != w.xfile else "<exclusion file>" for a in cases[k["tid"]][1]],
                    exclusion_file=cases[k["tid"]][0]["xfile"], selected=k["selected"], removed=k["removed"]))
     # 3. code -> spec
